@@ -41,6 +41,11 @@ Proof.
   | |- context [if ?d then N.lxor _ _ else _] => destruct d eqn:E
   end; st_decide_ifs;
     rewrite Z_of_N_lor, Z_of_N_land, Z_of_N_w64, Z_of_N_shiftl, ?Z_of_N_lxor;
+    (* x ^ c written c ^ x in the source *)
+    repeat match goal with
+           | |- context [Z.lxor ?a (Z.of_N ?x)] =>
+               lazymatch a with Z.of_N _ => fail | _ => rewrite (Z.lxor_comm a (Z.of_N x)) end
+           end;
     first [ reflexivity | rewrite Z.lor_comm; reflexivity ].
 Qed.
 
